@@ -144,7 +144,11 @@ class Canon:
             if isinstance(h, str):
                 return Poly.atom(h)
         if isinstance(node, ast.Constant) and isinstance(node.value, (int, float)) and not isinstance(node.value, bool):
-            return Poly.const(Fraction(node.value))
+            # decimal literals are read as the decimal fraction they spell (0.2 == 1/5), not as the binary double
+            try:
+                return Poly.const(Fraction(repr(node.value)) if isinstance(node.value, float) else Fraction(node.value))
+            except (ValueError, OverflowError):
+                return Poly.atom(repr(node.value))
         if isinstance(node, ast.Name):
             if node.id in self.env and self._depth < self.max_inline:
                 self._depth += 1
